@@ -114,6 +114,9 @@ def constraint_kmeans(
     else:
         if isinstance(X, DataFrame):
             X = X.values
+        if not scipy.sparse.issparse(X) and X.dtype.kind in "iub":
+            # centers and distances are allocated with the type of X
+            X = X.astype(numpy.float64)
         x_squared_norms = row_norms(X, squared=True)
         counters = numpy.empty((centers.shape[0],), dtype=numpy.int32)
         limit = X.shape[0] // centers.shape[0]
@@ -218,6 +221,9 @@ def constraint_predictions(X, centers, strategy, state=None):
     """
     if isinstance(X, DataFrame):
         X = X.values
+    if not scipy.sparse.issparse(X) and X.dtype.kind in "iub":
+        # distances are allocated with the type of X
+        X = X.astype(numpy.float64)
     x_squared_norms = row_norms(X, squared=True)
     counters = numpy.empty((centers.shape[0],), dtype=numpy.int32)
     limit = X.shape[0] // centers.shape[0]
